@@ -1,11 +1,213 @@
 import HickoryVerif.Drv.Proto
+import HickoryVerif.Model.UdpMatch
+import HickoryVerif.Model.Multiplexer
 
+/-!
+Line protocol of C16.
+
+UDP (stateless, one line per query):
+`udp <timeout> <retry_interval> <retry_floor> <max_retries> <server> <id> <case01> <questions> { | <event>* }*`
+* addr      `4:<ip as decimal>:<port>` / `6:<ip as decimal>:<port>`
+* questions `-` or `name/type/class,…` (name token of Drv/Proto)
+* event     `D;<delay>;<src addr>;<parses01>;<response01>;<id>;<questions>;<- or =rawhex>` or `E;<delay>`
+answer: `ok <transmission>.<event index> c=<consumed per started transmission> k=<class>` / `err c=… k=…` /
+`timeout c=… k=…`; class = `-`, or `undecodable` / `case` when a datagram of that known-finding class ended the query
+-/
 namespace HickoryVerif.Drv.C16
-open HickoryVerif HickoryVerif.Drv
+open HickoryVerif HickoryVerif.Drv HickoryVerif.UdpMatch
 
-abbrev State := Unit
-def init : State := ()
+def parseBool (s : String) : Option Bool :=
+  if s == "1" then some true else if s == "0" then some false else none
 
-def step (s : State) (_toks : List String) : State × String := (s, "bad-op")
+def parseAddr (s : String) : Option Addr :=
+  match s.splitOn ":" with
+  | ["4", a, p] => do
+    let a ← a.toNat?; let p ← p.toNat?
+    pure { ip := .v4 a, port := p }
+  | ["6", a, p] => do
+    let a ← a.toNat?; let p ← p.toNat?
+    pure { ip := .v6 a, port := p }
+  | _ => none
+
+def parseQuestion (s : String) : Option Question :=
+  match s.splitOn "/" with
+  | [n, t, c] => do
+    let n ← parseName n; let t ← t.toNat?; let c ← c.toNat?
+    pure { name := n, qtype := t, qclass := c }
+  | _ => none
+
+def parseQuestions (s : String) : Option (List Question) :=
+  if s == "-" then some [] else (s.splitOn ",").mapM parseQuestion
+
+def parseEvent (s : String) : Option Timed :=
+  match s.splitOn ";" with
+  | ["E", d] => do
+    let d ← d.toNat?
+    pure (d, .ioErr)
+  | ["D", d, a, p, r, i, q, _raw] => do
+    let d ← d.toNat?; let a ← parseAddr a; let p ← parseBool p; let r ← parseBool r
+    let i ← i.toNat?; let q ← parseQuestions q
+    pure (d, .dgram { src := a, parses := p, isResponse := r, id := i, questions := q })
+  | _ => none
+
+/-- split the token list at `|` -/
+def splitBar : List String → List (List String)
+  | [] => [[]]
+  | t :: ts =>
+    match splitBar ts with
+    | [] => [[t]]
+    | g :: gs => if t == "|" then [] :: g :: gs else (t :: g) :: gs
+
+def showConsumed (l : List Nat) : String := "c=" ++ ",".intercalate (l.map toString)
+
+def showQuery : QueryOutcome → String
+  | .ok t i => s!"ok {t}.{i}"
+  | .err => "err"
+  | .timeout => "timeout"
+
+def showEndClass : EndClass → String
+  | .none => "-"
+  | .undecodable => "undecodable"
+  | .caseMismatch => "case"
+
+def handleUdp (toks : List String) : Option String :=
+  match splitBar toks with
+  | [timeout, interval, floor, maxr, server, id, cr, qs] :: scripts => do
+    let timeout ← timeout.toNat?; let interval ← interval.toNat?; let floor ← floor.toNat?; let maxr ← maxr.toNat?
+    let server ← parseAddr server; let id ← id.toNat?; let cr ← parseBool cr; let qs ← parseQuestions qs
+    let c : Config := { timeout := timeout, interval := retryInterval interval floor, maxRetries := maxr }
+    let rq : Request := { server := server, id := id, caseRand := cr, questions := qs }
+    let ss ← scripts.mapM fun s => s.mapM parseEvent
+    pure (showQuery (query c rq ss) ++ " " ++ showConsumed (consumedList c rq ss) ++ " k=" ++
+      showEndClass (queryEndClass c rq ss))
+  | _ => none
+
+/-! ## multiplexer blocks
+
+`begin mux <timeout ms> <max_active> <stalled01>` … `end`.  Request `k` gets the model id `k + 1`; `u` is
+an id no request has (0).  In a non-stalled block the stream takes every outbound message at once
+(so the peer knows the id); in a stalled block it never does.
+ops: `send k` · `deliver r<k>|u|g|q<k>|e|c <count>` · `poll` · `recv k` · `cancel k` · `advance ms` ·
+`shutdown` · `end` (every live caller drains its stream: the summary is the answer). -/
+
+structure MuxDrv where
+  s : Mux.State
+  stalled : Bool
+  nextTag : Nat := 0
+  /-- requests whose message reached the peer -/
+  known : List Nat := []
+
+abbrev State := Option MuxDrv
+def init : State := none
+
+def showRecv : Mux.RecvResult → String
+  | .ok _ tag => s!"ok {tag}"
+  | .err => "err"
+  | .ended => "end"
+  | .pending => "pending"
+  | .noreq => "noreq"
+
+def frameOf (d : MuxDrv) (kind : String) (tag : Nat) : Option Mux.Frame :=
+  match kind.toList with
+  | ['u'] => some (.msg true true 0 tag)
+  | ['g'] => some (.msg false false 0 tag)
+  | ['e'] => some .err
+  | ['c'] => some .eof
+  | 'r' :: k => do
+    let k ← (String.ofList k).toNat?
+    if d.known.contains k then some (.msg true true (k + 1) tag) else none
+  | 'q' :: k => do
+    let k ← (String.ofList k).toNat?
+    if d.known.contains k then some (.msg true false (k + 1) tag) else none
+  | _ => none
+
+def validKind (kind : String) : Bool :=
+  match kind.toList with
+  | ['u'] | ['g'] | ['e'] | ['c'] => true
+  | 'r' :: k | 'q' :: k => (String.ofList k).toNat?.isSome
+  | _ => false
+
+def deliverN (d : MuxDrv) (kind : String) : Nat → Option MuxDrv
+  | 0 => some d
+  | n + 1 => do
+    let f ← frameOf d kind d.nextTag
+    deliverN { d with s := Mux.step d.s (.deliver f), nextTag := d.nextTag + 1 } kind n
+
+/-- a caller drains its stream: up to 12 polls, stopping at end-of-stream or pending -/
+def drainCaller (s : Mux.State) (r : Nat) : Nat → Mux.State × List String
+  | 0 => (s, [])
+  | n + 1 =>
+    let (s', res) := Mux.recv s r
+    match res with
+    | .ok _ tag => let (s'', l) := drainCaller s' r n; (s'', s!"ok{tag}" :: l)
+    | .err => let (s'', l) := drainCaller s' r n; (s'', "err" :: l)
+    | .ended => (s', ["end"])
+    | .pending => (s', ["pending"])
+    | .noreq => (s', ["noreq"])
+
+def summary (s : Mux.State) : String :=
+  let live := s.callers.filter fun c => !c.chan.rxClosed
+  let (_, parts) := live.foldl (fun (acc : Mux.State × List String) c =>
+    let (s', l) := drainCaller acc.1 c.req 12
+    (s', acc.2 ++ [s!"{c.req}:" ++ ",".intercalate l])) (s, [])
+  if parts.isEmpty then "-" else " ".intercalate parts
+
+def muxStep (d : MuxDrv) (toks : List String) : Option (MuxDrv × String) :=
+  match toks with
+  | ["send", k] => do
+    let k ← k.toNat?
+    match Mux.send d.s k [k + 1] with
+    | .panic _ => pure (d, "panic")
+    | .err => pure (d, "panic")
+    | .ok (s', .sent _) =>
+      let s' := if d.stalled then s' else Mux.step s' .drain
+      pure ({ d with s := s', known := if d.stalled then d.known else k :: d.known }, "sent")
+    | .ok (s', .err) => pure ({ d with s := (Mux.recv s' k).1 }, "err")   -- the probing poll takes the error
+    | .ok (_, .bad) => pure (d, "bad")
+  | ["deliver", kind, n] => do
+    let n ← n.toNat?
+    if !validKind kind then none
+    else match deliverN d kind n with
+      | some d' => pure (d', "ok")
+      | none => pure (d, "noid")
+  | ["poll"] =>
+    let (s', r) := Mux.poll d.s
+    pure ({ d with s := s' },
+      if r.done then "done" else s!"pending w={boolStr r.wake} sp={boolStr r.streamPending}")
+  | ["recv", k] => do
+    let k ← k.toNat?
+    let (s', r) := Mux.recv d.s k
+    pure ({ d with s := s' }, showRecv r)
+  | ["cancel", k] => do
+    let k ← k.toNat?
+    match d.s.caller? k with
+    | some c => if c.chan.rxClosed then pure (d, "noreq") else pure ({ d with s := Mux.cancel d.s k }, "ok")
+    | none => pure (d, "noreq")
+  | ["advance", dt] => do
+    let dt ← dt.toNat?
+    pure ({ d with s := Mux.step d.s (.advance dt) }, "ok")
+  | ["shutdown"] => pure ({ d with s := Mux.step d.s .shutdown }, "ok")
+  | _ => none
+
+def step (s : State) (toks : List String) : State × String :=
+  match toks with
+  | "udp" :: rest => (s, (handleUdp rest).getD "bad-op")
+  | ["consts"] =>
+    (s, s!"{UdpMatch.MAX_EXAMINED} {Mux.QOS_MAX_RECEIVE_MSGS} {Mux.ID_TRIES} {Mux.CHAN_CAP} {Mux.OUT_CAP}")
+  | "begin" :: "mux" :: t :: m :: st :: _ =>
+    match t.toNat?, m.toNat?, parseBool st with
+    | some t, some m, some st => (some { s := Mux.init t m, stalled := st }, "ok")
+    | _, _, _ => (none, "bad-op")
+  | ["end"] =>
+    match s with
+    | some d => (none, summary d.s)
+    | none => (none, "bad-op")
+  | _ =>
+    match s with
+    | some d =>
+      match muxStep d toks with
+      | some (d', o) => (some d', o)
+      | none => (some d, "bad-op")
+    | none => (s, "bad-op")
 
 end HickoryVerif.Drv.C16
